@@ -61,7 +61,20 @@ def run_admission(ctx):
                 # the listed exception shape: the None side of an `if let Some(..) = ...min_by_key(..)`
                 gs = b.guards_of(bb)
                 none_of_min = any(g["kind"] == "discr" and "min_by_key" in g["text"] and g["taken"] in ([0], "other") for g in gs)
+                narrowed = None
                 if none_of_min:
+                    # the exception rests on "min_by_key over the WHOLE vector is None only for an empty vector": a filter /
+                    # skip / take between iter() and min_by_key makes the no-eviction fallback reachable with a full vector
+                    from vpr.prov import Slicer
+                    for g in gs:
+                        if g["kind"] == "discr" and "min_by_key" in g["text"] and g.get("of") is not None:
+                            o = Slicer(b).origins([g["of"]])
+                            for cn in o.call_names():
+                                if cn.rsplit("::", 1)[-1] in ("filter", "filter_map", "skip", "take", "skip_while", "take_while", "step_by"):
+                                    narrowed = cn.rsplit("::", 1)[-1]
+                if none_of_min and narrowed:
+                    ctx.violation("admission", key, "%s admits the new run without evicting when no candidate passes `%s(..)` before min_by_key: with every active run excluded by that %s the run vector is full, nothing is removed and the run is pushed anyway — the number of partial matches grows past max_runs" % (name, narrowed, narrowed), site=t["sp"])
+                elif none_of_min:
                     n_exc += 1
                     ctx.ok("admission", key, "listed exception: vector empty while len >= max_runs (max_runs == 0 only)", site=t["sp"], nontrivial=False)
                 else:
